@@ -30,9 +30,11 @@ Known == {"nl.bsn", "nl.onderwijsnummer", "pl.nip", "pl.regon", "pt.nif", "dk.cv
           "se.postnummer", "se.vat", "si.maticna", "sm.coe", "sv.nit", "th.moa",
           "bg.egn", "cu.ni", "cz.rc", "sk.rc", "lt.asmens", "ro.cnp", "kr.rrn", "gr.amka", "is_.kennitala",
           "es.cups", "es.nif", "es.referenciacatastral", "fr.nir", "in_.gstin", "si.emso", "tn.mf", "tw.ubn", "ua.rntrc", "us.ptin",
-          "bg.vat", "cz.dic", "sk.dph", "ro.cf", "th.tin", "it.codicefiscale", "mu.nid", "eu.at_02", "mx.rfc", "mx.curp"}
+          "bg.vat", "cz.dic", "sk.dph", "ro.cf", "th.tin", "it.codicefiscale", "mu.nid", "eu.at_02", "mx.rfc", "mx.curp",
+          "iso6346", "be.eid", "de.stnr"}
 (* formats with further rules (dates, ranges) that are not transcribed: the checksum is only a NECESSARY condition *)
-Necessary == {"no.fodselsnummer", "fi.hetu", "ch.ssn", "lv.pvn", "pl.pesel", "ee.ik", "at.tin", "dk.cpr", "za.idnr", "se.personnummer", "cz.bankaccount"}
+Necessary == {"no.fodselsnummer", "fi.hetu", "ch.ssn", "lv.pvn", "pl.pesel", "ee.ik", "at.tin", "dk.cpr", "za.idnr", "se.personnummer", "cz.bankaccount",
+              "sg.uen", "ro.onrc", "id.nik", "id.npwp", "cn.ric", "be.nn", "be.bis", "us.ssn", "us.itin", "us.atin", "us.ein", "nz.bankaccount", "my.nric", "mac", "imsi", "cfi", "isil", "at.postleitzahl"}
 
 WRev(c, n, w) == Sum(LAMBDA i : w[i] * D(c[n + 1 - i]), n)      \* weights counted from the right over the first n characters
 LuhnSum(c) == Sum(LAMBDA i : IF (Len(c) - i) % 2 = 1 THEN DigitSum(2 * D(c[i])) ELSE D(c[i]), Len(c))
@@ -139,6 +141,30 @@ EstonianCheck(c, n) ==        \* check digit over the first n digits: weights 1,
   LET s1 == Sum(LAMBDA i : (((i - 1) % 9) + 1) * D(c[i]), n) % 11
       s2 == Sum(LAMBDA i : (((i + 1) % 9) + 1) * D(c[i]), n) % 11
   IN  IF s1 < 10 THEN s1 ELSE s2 % 10
+
+(* ---- batch of 2026-09-27: ISO 6346, Belgian eID, German Steuernummer (sufficient), and the clock- or registry-free parts of further formats (necessary) ---- *)
+IsoVal(ch) == IF ch <= 57 THEN ch - 48 ELSE IF ch = 65 THEN 10 ELSE IF ch <= 75 THEN ch - 54 ELSE IF ch <= 85 THEN ch - 53 ELSE ch - 52   \* multiples of 11 are skipped
+SgTypes == {<<67, 67>>, <<67, 68>>, <<67, 72>>, <<67, 76>>, <<67, 77>>, <<67, 80>>, <<67, 83>>, <<67, 88>>, <<68, 80>>, <<70, 66>>, <<70, 67>>, <<70, 77>>, <<70, 78>>, <<71, 65>>, <<71, 66>>, <<71, 83>>, <<72, 83>>, <<76, 76>>, <<76, 80>>, <<77, 66>>, <<77, 67>>, <<77, 68>>, <<77, 72>>, <<77, 77>>, <<77, 81>>, <<78, 66>>, <<78, 82>>, <<80, 65>>, <<80, 66>>, <<80, 70>>, <<82, 70>>, <<82, 80>>, <<83, 77>>, <<83, 83>>, <<84, 67>>, <<84, 85>>, <<86, 72>>, <<88, 76>>}
+SgOtherAlphabet == <<65, 66, 67, 68, 69, 70, 71, 72, 74, 75, 76, 77, 78, 80, 81, 82, 83, 84, 85, 86, 87, 88, 48, 49, 50, 51, 52, 53, 54, 55, 56, 57>>
+RoCounties == (1..40) \cup {51, 52}
+IdNikNec(c) == /\ Len(c) = 16 /\ IsDigits(c)
+               /\ LET dd == NumOf(c, 7, 8) % 40  mm == NumOf(c, 9, 10)  yy == NumOf(c, 11, 12)
+                  IN NRealDate(1900 + yy, mm, dd) \/ NRealDate(2000 + yy, mm, dd)
+BeNnChecksum(c) == LET k == NumOf(c, 10, 11) IN 97 - ModOf(SubSeq(c, 1, 9), 97) = k \/ 97 - ModOf(<<50>> \o SubSeq(c, 1, 9), 97) = k
+NzAlg(c) == LET p == NumOf(c, 1, 2)
+            IN CASE p \in ({1, 2, 3, 4, 6, 27, 30, 35, 38} \cup (10..24)) -> (IF NumOf(c, 7, 13) >= 990000 THEN "B" ELSE "A")
+                 [] p = 8 -> "D" [] p = 9 -> "E" [] p \in {25, 33} -> "F" [] p \in {26, 28, 29} -> "G" [] OTHER -> "X"
+NzWeights(a) == CASE a = "A" -> <<0, 0, 6, 3, 7, 9, 0, 10, 5, 8, 4, 2, 1, 0, 0, 0>>
+                  [] a = "B" -> <<0, 0, 0, 0, 0, 0, 0, 10, 5, 8, 4, 2, 1, 0, 0, 0>>
+                  [] a = "D" -> <<0, 0, 0, 0, 0, 0, 7, 6, 5, 4, 3, 2, 1, 0, 0, 0>>
+                  [] a = "E" -> <<0, 0, 0, 0, 0, 0, 0, 0, 0, 5, 4, 3, 2, 0, 0, 1>>
+                  [] a = "F" -> <<0, 0, 0, 0, 0, 0, 1, 7, 3, 1, 7, 3, 1, 0, 0, 0>>
+                  [] a = "G" -> <<0, 0, 0, 0, 0, 0, 1, 3, 7, 1, 3, 7, 1, 3, 7, 1>>
+                  [] OTHER -> <<0, 0, 0, 0, 0, 0, 0, 0, 0, 0, 0, 0, 0, 0, 0, 0>>
+NzMod(a) == CASE a \in {"A", "B", "D"} -> <<11, 11>> [] a = "E" -> <<9, 11>> [] a = "F" -> <<10, 10>> [] a = "G" -> <<9, 10>> [] OTHER -> <<1, 1>>
+NzOk(c) == LET a == NzAlg(c)  w == NzWeights(a)  md == NzMod(a)
+           IN Sum(LAMBDA i : LET x == w[i] * D(c[i]) IN IF x > md[1] THEN x % md[1] ELSE x, 16) % md[2] = 0
+TwoCenturyDate(yy, mm, dd) == NRealDate(1900 + yy, mm, dd) \/ NRealDate(2000 + yy, mm, dd)
 
 AcceptN(m, c) ==
   CASE m = "nl.bsn" -> Len(c) = 9 /\ IsDigits(c) /\ ~AllZero(c) /\ (W(c, <<9, 8, 7, 6, 5, 4, 3, 2>>) + 11 * 9 - D(c[9])) % 11 = 0
@@ -517,6 +543,13 @@ AcceptN(m, c) ==
                         /\ NRealDate((IF c[17] <= 57 THEN 1900 ELSE 2000) + NumOf(c, 5, 6), NumOf(c, 7, 8), NumOf(c, 9, 10))
                         /\ c[11] \in {72, 77} /\ SubSeq(c, 12, 13) \in MxStates
                         /\ (10 - (Sum(LAMBDA i : MxCurpVal(c[i]) * (19 - i), 17) % 10)) % 10 = D(c[18])
+    [] m = "iso6346" -> /\ Len(c) = 11 /\ (\A i \in 1..3 : (c[i] \in 48..57) \/ (c[i] \in 65..90)) /\ c[4] \in {85, 74, 90, 82}
+                        /\ IsDigits(SubSeq(c, 5, 11))
+                        /\ (Sum(LAMBDA i : IsoVal(c[i]) * (2 ^ (i - 1)), 10) % 11) % 10 = D(c[11])
+    [] m = "be.eid" -> /\ Len(c) = 12 /\ IsDigits(c) /\ ~AllZero(c)
+                       /\ LET r == ModOf(SubSeq(c, 1, 10), 97) IN NumOf(c, 11, 12) = (IF r = 0 THEN 97 ELSE r)
+    [] m = "de.stnr" -> /\ IsDigits(c) /\ Len(c) \in {10, 11, 13}
+                        /\ (Len(c) = 13 => (c[5] = 48 /\ (c[1] \in {53, 57} \/ NumOf(c, 1, 2) \in {10, 11, 21, 22, 23, 24, 26, 27, 28, 30, 31, 32, 40, 41})))
 
 (* checksum parts of formats with further rules *)
 NecessaryN(m, c) ==
@@ -547,4 +580,39 @@ NecessaryN(m, c) ==
                               /\ W(ZFill(SubSeq(c, 1, 6), 10), <<6, 3, 7, 9, 10, 5, 8, 4, 2, 1>>) % 11 = 0
                               /\ W(SubSeq(c, 8, 17), <<6, 3, 7, 9, 10, 5, 8, 4, 2, 1>>) % 11 = 0
     [] m = "pl.pesel" -> Len(c) = 11 /\ IsDigits(c) /\ (10 - (W(c, <<1, 3, 7, 9, 1, 3, 7, 9, 1, 3>>) % 10)) % 10 = D(c[11])
+    [] m = "sg.uen" -> /\ Len(c) \in {9, 10}
+                       /\ IF Len(c) = 9
+                          THEN IsDigits(SubSeq(c, 1, 8)) /\ c[9] = <<88, 77, 75, 69, 67, 65, 87, 76, 74, 68, 66>>[(W(c, <<10, 4, 9, 3, 8, 2, 7, 1>>) % 11) + 1]
+                          ELSE IF c[1] \in 48..57
+                          THEN IsDigits(SubSeq(c, 1, 9)) /\ c[10] = <<90, 75, 67, 77, 68, 78, 69, 82, 71, 87, 72>>[(W(c, <<10, 8, 6, 4, 9, 7, 5, 3, 1>>) % 11) + 1]
+                          ELSE /\ c[1] \in {82, 83, 84} /\ IsDigits(SubSeq(c, 2, 3)) /\ SubSeq(c, 4, 5) \in SgTypes /\ IsDigits(SubSeq(c, 6, 9))
+                               /\ c[10] = SgOtherAlphabet[((Sum(LAMBDA i : (IndexIn(c[i], SgOtherAlphabet) - 1) * <<4, 3, 5, 3, 10, 2, 2, 5, 7>>[i], 9) + 6) % 11) + 1]
+    [] m = "ro.onrc" -> LET sl == {i \in 1..Len(c) : c[i] = 47}
+                        IN /\ Cardinality(sl) = 2 /\ Len(c) >= 6 /\ c[1] \in {74, 70, 67}
+                           /\ LET p1 == CHOOSE i \in sl : \A j \in sl : i <= j
+                                  p2 == CHOOSE i \in sl : \A j \in sl : j <= i
+                              IN /\ p1 \in {3, 4} /\ IsDigits(SubSeq(c, 2, p1 - 1)) /\ NumOf(c, 2, p1 - 1) \in RoCounties
+                                 /\ (p2 - p1 - 1) \in 1..5 /\ IsDigits(SubSeq(c, p1 + 1, p2 - 1))
+                                 /\ Len(c) - p2 = 4 /\ IsDigits(SubSeq(c, p2 + 1, Len(c))) /\ NumOf(c, p2 + 1, Len(c)) >= 1990
+    [] m = "id.nik" -> IdNikNec(c)
+    [] m = "id.npwp" -> /\ IsDigits(c)
+                        /\ CASE Len(c) = 15 -> LuhnSum(SubSeq(c, 1, 9)) % 10 = 0
+                             [] Len(c) = 16 -> (IF c[1] = 48 THEN LuhnSum(SubSeq(c, 1, 10)) % 10 = 0 ELSE IdNikNec(c))
+                             [] OTHER -> FALSE
+    [] m = "cn.ric" -> /\ Len(c) = 18 /\ IsDigits(SubSeq(c, 1, 17))
+                       /\ LET v == FoldLeft(LAMBDA acc, ch : (13 * acc + D(ch)) % 11, 0, SubSeq(c, 1, 17))  k == (1 + 9 * v) % 11
+                          IN c[18] = (IF k = 10 THEN 88 ELSE 48 + k)
+                       /\ NumOf(c, 7, 10) >= 1 /\ NRealDate(NumOf(c, 7, 10), NumOf(c, 11, 12), NumOf(c, 13, 14))
+    [] m = "be.nn" -> Len(c) = 11 /\ IsDigits(c) /\ ~AllZero(c) /\ BeNnChecksum(c) /\ NumOf(c, 3, 4) <= 12
+    [] m = "be.bis" -> Len(c) = 11 /\ IsDigits(c) /\ ~AllZero(c) /\ BeNnChecksum(c) /\ (NumOf(c, 3, 4) \in 20..32 \/ NumOf(c, 3, 4) \in 40..52)
+    [] m = "us.ssn" -> /\ Len(c) = 9 /\ IsDigits(c) /\ NumOf(c, 1, 3) \notin {0, 666} /\ c[1] # 57 /\ NumOf(c, 4, 5) # 0 /\ NumOf(c, 6, 9) # 0
+    [] m = "us.itin" -> Len(c) = 9 /\ IsDigits(c) /\ c[1] = 57 /\ NumOf(c, 4, 5) \in ((70..99) \ {89, 93})
+    [] m \in {"us.atin", "us.ein"} -> Len(c) = 9 /\ IsDigits(c)
+    [] m = "nz.bankaccount" -> Len(c) = 16 /\ IsDigits(c) /\ NzOk(c)
+    [] m = "my.nric" -> Len(c) = 12 /\ IsDigits(c) /\ TwoCenturyDate(NumOf(c, 1, 2), NumOf(c, 3, 4), NumOf(c, 5, 6))
+    [] m = "mac" -> Len(c) = 17 /\ \A i \in 1..17 : IF i % 3 = 0 THEN c[i] = 58 ELSE ((c[i] \in 48..57) \/ (c[i] \in 97..102))
+    [] m = "imsi" -> IsDigits(c) /\ Len(c) \in {14, 15}
+    [] m = "cfi" -> Len(c) = 6 /\ \A i \in 1..6 : c[i] \in 65..90
+    [] m = "isil" -> Len(c) <= 15 /\ \A i \in 1..Len(c) : (c[i] \in 48..57) \/ (c[i] \in 65..90) \/ (c[i] \in 97..122) \/ c[i] \in {45, 58, 47}
+    [] m = "at.postleitzahl" -> Len(c) = 4 /\ IsDigits(c)
 =============================================================================
